@@ -228,6 +228,8 @@ func errName(err error) string {
 		return "notfound"
 	case errors.Is(err, packet.ErrInvalidIP):
 		return "invalidip"
+	case errors.Is(err, errRefused):
+		return "err"
 	}
 	return "err:" + err.Error()
 }
